@@ -587,7 +587,21 @@ def check_emission(P, R):
                  f'`{short(st_)}` sets {sorted(w)[0]} of `{recv}` without the other half: the status line that is sent and the code that selects the per-status blacklist '
                  f'disagree - a copy of a 304 announces 304 and still emits Content-Length, Last-Modified and the default Content-Type',
                  why='entity headers forbidden for 204 and 304 responses are withheld', key_extra='status-pair')
+            # ... and nothing can fail between the two stores: a failed assignment must leave the old pair, not half of the new one
+            if ok:
+                g_ = fx.cfg
+                na = [g_.node_of_stmt(x_)[0] for x_ in w.values()]
+                first_, second_ = (na[0], na[1]) if g_.can_reach(na[0], na[1]) else (na[1], na[0])
+                if first_ is not second_:
+                    leaves = [m_ for m_ in g_.reachable_from(first_, avoid_nodes=[second_]) if m_.kind == 'stmt' and isinstance(m_.ast, ast.Raise)]
+                    R.ob('C14.d', fx, leaves[0].ast if leaves else st_, not leaves, text=f'no exit between the two stores of the status pair of {recv}', detail='' if not leaves else
+                         f'`{short(leaves[0].ast)}` can leave {fx.qual} after `{short(first_.ast)}` and before `{short(second_.ast)}`: a refused assignment leaves the new code with '
+                         f'the old status line - a 304 response whose status was (unsuccessfully) set to "200 ..." is still sent as 304 but with the blacklist of 200: '
+                         f'Content-Length, Content-Type and Last-Modified go out with it',
+                         why='entity headers forbidden for 204 and 304 responses are withheld', key_extra='status-pair-atomic')
     R.require(n_pairs >= 2, f'{n_pairs} writers of the status pair found (3 on the pinned tree)')
+    nst_ = check_no_stored_wire_form(P, R, 'C14.d')
+    R.ob('C14.d', f, None, nst_ >= 1, text=f'{nst_} header store(s) outside headerlist examined for values already in wire form', nontrivial=False)
     # names in the table are spelled the way they are stored? (comparison is exact: report as note)
     # wsgi passes response.headerlist to start_response
     w = P.func('ombott.ombott:Ombott.wsgi')
@@ -625,6 +639,62 @@ def check_setters_always_store(P, R, rid, why):
              f'HeaderDict.{name} can return without storing anything (a test of the value\'s truth before the store?): the integer 0 is dropped, so the '
              f'`Content-Length: 0` computed for an empty file never reaches the response', why=why, key_extra=f'always-store:{name}')
     R.require(n >= 2, f'{n} single-value setters of HeaderDict found (3 on the pinned tree)')
+
+
+def _is_transcode(e):
+    def codec(x):
+        v = const(x)
+        return str(v).lower().replace('-', '').replace('_', '').replace('iso88591', 'latin1') if isinstance(v, str) else None
+    if isinstance(e, ast.Call) and call_attr(e) == 'decode' and len(e.args) == 1 and codec(e.args[0]) == 'latin1':
+        inner_ = e.func.value
+        return isinstance(inner_, ast.Call) and call_attr(inner_) == 'encode' and len(inner_.args) == 1 and codec(inner_.args[0]) == 'utf8'
+    return False
+
+
+def check_no_stored_wire_form(P, R, rid):
+    """the utf8 -> latin1 transcoding belongs to the emission (headerlist) alone: a value that is *stored* in a response (handed to a constructor, a setter) in
+    that form is transcoded a second time when it is emitted, and no longer decodes back to the text that was set"""
+    def transcoding_funcs():
+        out = {}
+        for fx in P.all_funcs():
+            if fx.fq.startswith('ombott.') and not isinstance(fx.node, ast.Lambda) and fx.name != 'headerlist' and \
+                    any(_is_transcode(x) for x in ast.walk(fx.node)) and any(isinstance(x, (ast.Return, ast.Yield)) for x in walk_shallow(fx.node)):
+                out[fx.name] = fx
+        return out
+    tf = transcoding_funcs()
+    n = 0
+    for fx in P.all_funcs():
+        if not fx.fq.startswith('ombott.') or isinstance(fx.node, ast.Lambda) or fx.module.name.endswith('server_adapters'):
+            continue
+        for c in walk_shallow(fx.node):
+            vals = []
+            if isinstance(c, ast.Call):
+                callee = (dotted(c.func) or '').split('.')[-1]
+                if callee in ('cls', 'BaseResponse', 'HTTPResponse', 'HTTPError', '__class__'):
+                    vals += [k.value for k in c.keywords if k.arg in ('headers',) or k.arg is None]
+                elif call_attr(c) in ('set_header', 'add_header') and len(c.args) >= 2:
+                    vals.append(c.args[1])
+                elif call_attr(c) == 'append' and len(c.args) == 2 and 'header' in src(c.func.value).lower():
+                    vals.append(c.args[1])
+            elif isinstance(c, ast.Assign) and any(isinstance(t, ast.Subscript) and 'header' in src(t.value).lower() for t in c.targets) and fx.name != 'headerlist':
+                vals.append(c.value)
+            if not vals:
+                continue
+            ns = fx.cfg.node_of_stmt(c)
+            if not ns:
+                continue
+            for v in vals:
+                n += 1
+                cl = fx.rd.closure_nodes(v, ns[0])
+                direct = [x for x in cl if _is_transcode(x)]
+                via = [x for x in cl if isinstance(x, ast.Call) and (dotted(x.func) or '').split('.')[-1] in tf]
+                bad = direct or via
+                if bad:
+                    R.ob(rid, fx, c, False, text=f'`{short(c)}`: header values are stored as text, not in wire form', detail=
+                         f'the value stored here comes from `{short(bad[0])}`, which has already transcoded it utf8 -> latin1 for the wire: emission transcodes every stored value '
+                         f'again, so `Zoë` set on a response and carried over by this store (copy(), redirect()) goes out as bytes that decode to `ZoÃ«`',
+                         why='every emitted header value decodes back to the original text', key_extra='stored-wire-form')
+    return n
 
 
 def check_ctor_stores_every_header(P, R, rid, why):
